@@ -189,7 +189,12 @@ func (x *Exec) modTargets(env *Env, item string) ([]modTarget, error) {
 			owner = p.Elem()
 		}
 		var out []modTarget
-		r := xv.One()
+		var r Term
+		if classify(owner) == KIface && len(xv.S) == 2 {
+			r = xv.S[1]
+		} else {
+			r = xv.One()
+		}
 		for i, sl := range x.u.Layout(gv.T) {
 			_ = i
 			out = append(out, modTarget{Comp: ghostFieldComp(owner, sel.Name[1:], sl.Suffix), So: ArrSort(SInt, sl.So), Ref: &r})
@@ -320,7 +325,7 @@ func VerifyFunction(prog *Program, cs *Contracts, fn *ssa.Function, fc *FuncCont
 	u := NewUnit(short, fc.Mode, prog.Fset)
 	res = &FuncResult{Func: short, Key: name, Mode: fc.Mode, Unit: u, Contract: fc}
 	x := &Exec{u: u, prog: prog, cs: cs, topFC: fc, topName: short, closures: map[string]*Closure{}, labels: fc.Props,
-		calls: map[string]int{}, compInt: map[string]intInfo{}, loopEff: map[string]*loopEffects{}}
+		calls: map[string]int{}, compInt: map[string]intInfo{}, loopEff: map[string]*loopEffects{}, callSeen: map[string]bool{}}
 	res.X = x
 	defer func() {
 		if r := recover(); r != nil {
@@ -442,6 +447,14 @@ func VerifyFunction(prog *Program, cs *Contracts, fn *ssa.Function, fc *FuncCont
 	}
 	if len(fr.rets) == 0 {
 		u.Trust(short + ": no reachable return (function never returns normally)")
+	}
+	// every "call X#k assert" must have met its call (otherwise the assertion silently vanished)
+	for tag, cl := range fc.CallAssert {
+		if !x.callSeen[tag] {
+			for ci, c := range cl {
+				u.AddObligation(short, fmt.Sprintf("assert@%s.c%d", tag, ci+1), fn.Pos(), x.lab(c.Labels), c.Text+"   [the call "+tag+" no longer exists]", True, False)
+			}
+		}
 	}
 	return
 }
